@@ -42,7 +42,7 @@ impl Property for C02 {
         "cases: 2D/3D polylines (2-200 vertices quick, 400 thorough; long-thin, spirals, dense-then-sparse, lattice paths with self-touching) or meshes (grids with random diagonals, L-shapes, tubes, fans, boxes, octahedra, icospheres, tori, prisms; shuffled numbering; any pose; 2-600 faces) with 10-40 query points constructed on an element, offset from it (1e-6..3 scale), near vertices/creases, or far away; plus a distance cap and an angle for the filtered projections. Oracle: exhaustive scan over all edges/faces in the harness (own point-segment and Ericson point-triangle routines). Non-trivial: >= 8 elements and the optimum is not attained on element 0. Distinct = distinct canonical JSON."
     }
     fn cases(t: Tier) -> u32 {
-        t.pick(300_000, 1_500_000)
+        t.pick(200_000, 1_500_000)
     }
     fn expected_labels() -> Vec<&'static str> {
         vec!["curve2", "curve3", "mesh", "on_entity", "vertex_region", "edge_region", "face_region", "cap_inside", "cap_outside", "angle_accept", "angle_reject", "solid", "closed_mesh", "open_mesh"]
@@ -136,10 +136,31 @@ fn curve2(spec: &Curve2Spec, queries: &[CQ]) -> Verdict {
         let q = resolve_cq(c, &b.model);
         let s = b.curve.at_closest_to_point(&q);
         let sv = StationView { point: s.point(), index: s.index(), fraction: s.fraction(), length_along: s.length_along(), dir: s.direction().into_inner() };
-        match check_curve_query(&mut cx, "curve2", &b.model, &lens, &q, &sv, b.curve.dist_to_point(&q)) {
+        match check_curve_query(&mut cx, "curve2", &b.model, &b.model.cum, &q, &sv, b.curve.dist_to_point(&q)) {
             Ok(x) => nt |= x,
             Err(f) => return Verdict::Fail(f),
         }
+    }
+    // derived curves (the same object reversed, moved, and moved again) answer for their own vertices: their spatial
+    // structure and length table are rebuilt, nothing of the source's survives
+    {
+        let iso = engeom::Iso2::new(engeom::Vector2::new(0.31 * b.model.scale() + 0.2, -0.17 * b.model.scale()), 0.45);
+        let rev = b.curve.reversed();
+        let mv = b.curve.transformed_by(&iso);
+        let mv2 = mv.transformed_by(&iso);
+        for (name, d, qmap) in [("reversed", &rev, 0u8), ("moved", &mv, 1), ("moved_twice", &mv2, 2)] {
+            let model = crate::oracle::Poly::new(d.points().to_vec());
+            for c in queries.iter().take(6) {
+                let q0 = resolve_cq(c, &b.model);
+                let q = match qmap { 0 => q0, 1 => iso * q0, _ => iso * (iso * q0) };
+                let s = d.at_closest_to_point(&q);
+                let sv = StationView { point: s.point(), index: s.index(), fraction: s.fraction(), length_along: s.length_along(), dir: s.direction().into_inner() };
+                if let Err(f) = check_curve_query(&mut cx, &format!("curve2/derived_{name}"), &model, &model.cum, &q, &sv, d.dist_to_point(&q)) {
+                    return Verdict::Fail(f);
+                }
+            }
+        }
+        cx.label("derived_curves");
     }
     if nt {
         cx.nontrivial();
@@ -161,10 +182,28 @@ fn curve3(spec: &Curve3Spec, queries: &[CQ]) -> Verdict {
         let q = resolve_cq(c, &b.model);
         let s = b.curve.at_closest_to_point(&q);
         let sv = StationView { point: s.point(), index: s.index(), fraction: s.fraction(), length_along: s.length_along(), dir: s.direction().into_inner() };
-        match check_curve_query(&mut cx, "curve3", &b.model, &lens, &q, &sv, b.curve.dist_to_point(&q)) {
+        match check_curve_query(&mut cx, "curve3", &b.model, &b.model.cum, &q, &sv, b.curve.dist_to_point(&q)) {
             Ok(x) => nt |= x,
             Err(f) => return Verdict::Fail(f),
         }
+    }
+    {
+        let iso = engeom::Iso3::new(engeom::Vector3::new(0.31 * b.model.scale() + 0.2, -0.17 * b.model.scale(), 0.05), engeom::Vector3::new(0.2, -0.3, 0.45));
+        let mv = b.curve.transformed_by(&iso);
+        let mv2 = mv.transformed_by(&iso);
+        for (name, d, twice) in [("moved", &mv, false), ("moved_twice", &mv2, true)] {
+            let model = crate::oracle::Poly::new(d.points().to_vec());
+            for c in queries.iter().take(6) {
+                let q0 = resolve_cq(c, &b.model);
+                let q = if twice { iso * (iso * q0) } else { iso * q0 };
+                let s = d.at_closest_to_point(&q);
+                let sv = StationView { point: s.point(), index: s.index(), fraction: s.fraction(), length_along: s.length_along(), dir: s.direction().into_inner() };
+                if let Err(f) = check_curve_query(&mut cx, &format!("curve3/derived_{name}"), &model, &model.cum, &q, &sv, d.dist_to_point(&q)) {
+                    return Verdict::Fail(f);
+                }
+            }
+        }
+        cx.label("derived_curves");
     }
     if nt {
         cx.nontrivial();
